@@ -127,6 +127,12 @@ type snap struct {
 // damageNewest marks the newest snapshot that can still be read as unreadable; it reports the index of
 // the snapshot a restart would then fall back to (0 if none) and whether anything was damaged
 func (st *snapStore) damageNewest(dry bool) (fallback uint64, readable int) {
+	f, r, _ := st.damageNewest3(dry)
+	return f, r
+}
+
+// damageNewest3 also reports the index of the snapshot that is (or would be) damaged
+func (st *snapStore) damageNewest3(dry bool) (fallback uint64, readable int, newest uint64) {
 	st.mu.Lock()
 	defer st.mu.Unlock()
 	done := false
@@ -137,6 +143,7 @@ func (st *snapStore) damageNewest(dry bool) (fallback uint64, readable int) {
 		readable++
 		if !done {
 			done = true
+			newest = s.meta.Index
 			if !dry {
 				s.bad = true
 			}
